@@ -165,14 +165,16 @@ impl Outgoing {
     // Returns (unsolicited, outoforder) flags
     // Return: Out of order or unsolicited acks
     pub fn register_ack(&mut self, pkid: u16) -> Option<()> {
-        let (head, _filter_idx, _cursor) = self.inflight_buffer.pop_front()?;
+        let (head, _filter_idx, _cursor) = self.inflight_buffer.front()?;
 
-        // We don't support out of order acks
-        if pkid != head {
+        // We don't support out of order acks. The head stays in the window: it has not been
+        // acknowledged and must be retransmitted when a persistent session is resumed
+        if pkid != *head {
             error!(pkid, head, "out of order ack.");
             return None;
         }
 
+        self.inflight_buffer.pop_front();
         Some(())
     }
 
@@ -187,14 +189,15 @@ impl Outgoing {
     // But we don't support out of order / unsolicited pubcomps
     // to be consistent with the behaviour with other acks
     pub fn register_pubcomp(&mut self, pkid: u16) -> Option<()> {
-        let id = self.unacked_pubrels.pop_front()?;
+        let id = *self.unacked_pubrels.front()?;
 
-        // out of order acks
+        // out of order acks: the release stays pending, it has not been completed
         if pkid != id {
             error!(pkid, id, "out of order ack.");
             return None;
         }
 
+        self.unacked_pubrels.pop_front();
         Some(())
     }
 
